@@ -28,16 +28,16 @@ CHECKS = {
             "text": "Per pre-terminal the lines actually written to the stdout seam are compared with the reference cartesian expansion (masks, adjacent alpha words, hostile values) or the reference OMEN level, and the reported count with the lines written.",
             "note": _TB + "; no schedule or fault enters this property (see DESIGN §2, fit W)"},
     "C08": {"level": "fault_enumeration", "technique": "deterministic simulation of quit/resume histories (process restarts with only the save file surviving); quit point enumerated over every pop in the thorough tier; RefResume oracle",
-            "text": "Every cycle re-enters pcfg_guesser.main() as a new process image on the scratch disk; the quit (the property's crash point) is injected after the k-th pop for sampled multi-cycle histories (quick) and for every k of each sampled world (thorough); the history is judged against the uninterrupted run: nothing lost, order kept, nothing above the saved probability, repeats only at exactly the saved probability, uuid mismatch refused.",
+            "text": "Every cycle re-enters pcfg_guesser.main() as a new process image on the scratch disk; the quit (the property's crash point) is injected after the k-th pop for sampled multi-cycle histories (quick) and for every k of each sampled world (thorough); the history is judged against the uninterrupted run: nothing lost, order kept, nothing above the saved probability, repeats only at exactly the saved probability, uuid mismatch refused; histories include a quit that is already pending when a process starts or restores.",
             "note": _TB + "; the keyboard thread is a stand-in here (its scheduling is C12); flags are repeated on --load (C14 covers flags-from-save)"},
     "C15": {"level": "fault_enumeration", "technique": "deterministic simulation of quit/resume histories with the quit injected after the j-th guess of a Markov level (every j in the thorough tier), restart with only .sav/.omn surviving, cache-size knob per process",
             "text": "Quit inside a Markov level at every position j (thorough) or sampled positions incl. first/last (quick), resume in a fresh process image with an empty memo table and an independently drawn optimizer size, followed by sampled tails (quit at a pop, inside the restored remainder, inside a later level); oracle: the restored remainder is exactly the missing strings, is never replayed later, and the rest of the run satisfies the C08 oracle.",
             "note": _TB + "; one known finding (K1) is keyed to 'quit inside the final pre-terminal's level'"},
     "C12": {"level": "exploration", "technique": "deterministic simulation: real keypress thread under a seeded baton scheduler (PCT priorities/change points at traced source lines), virtual clock, scripted stdin faults; prefix/refinement oracle against the uninterrupted run",
-            "text": "The real keyboard thread runs on a real OS thread but only while holding the scheduler's baton; every interleaving decision, stdin event (status/help/junk/quit/EOF/closed/lost/EIO/undecodable/silent), sleep and clock reading is the simulator's. Oracle: without an effective quit the stream equals the uninterrupted one; with one it is a prefix cut at a legal point no later than the current pre-terminal / next Markov guess, with a save file from which the rest resumes exactly.",
-            "note": _TB + "; pre-emption granularity = source lines of the session code and seam calls; tty/SIGINT not modelled"},
+            "text": "The real keyboard thread runs on a real OS thread but only while holding the scheduler's baton; every interleaving decision, stdin event (status/help/junk/quit/EOF/closed/lost/EIO/undecodable/silent), sleep and clock reading is the simulator's. A third of the cases are directed: the thread is parked right before it sets the quit flag and released exactly when the generation loop reaches a drawn labelled program point, so the quit lands at every kind of boundary; a quarter of the runs schedule a process that resumed a session interrupted inside a Markov level. Oracle: without an effective quit the stream equals the uninterrupted one; with one it is a prefix cut at a legal point no later than the end of the pre-terminal current when the flag was set, with a save file from which the rest resumes exactly; under a fair (directed) schedule a delivered 'q' must become effective.",
+            "note": _TB + "; pre-emption granularity = source lines of the session code and seam calls; tty/SIGINT not modelled; assumes an explicit quit takes effect by the end of the current pre-terminal (what the tool announces)"},
     "C09": {"level": "exploration", "technique": "deterministic simulation of whole process images (main() with argv) with recording stdout/stderr seams, injected save-file I/O errors, scheduled keyboard thread, seeded RNG seam; validated against real subprocesses",
-            "text": "Whole pcfg_guesser.main() process images on the scratch disk; stdout text must equal the guesses recorded at the print_guess seam, byte for byte, and --limit N output must be the first min(N,total) lines for N at/around group and Markov-level boundaries; faults: failing .sav writes, status/help requests from the real scheduled thread, quit + --load --limit (thorough); honeyword modes with the simulator's RNG.",
+            "text": "Whole pcfg_guesser.main() process images on the scratch disk; stdout text must equal the guesses recorded at the print_guess seam, byte for byte, and --limit N output must be the first min(N,total) lines for N at/around group and Markov-level boundaries; faults: failing .sav writes, status/help requests from the real scheduled thread (also in resumed processes), clock jumps up to days per guess, quit + --load --limit against --load without limit from the same saved state; honeyword modes with the simulator's RNG.",
             "note": _TB + "; in-process capture is cross-checked against 6 real `python pcfg_guesser.py` processes per invocation"},
     "C14": {"level": "exploration", "technique": "deterministic simulation of four process images over one scratch ruleset plus a quit/restart history in which the flags survive only in the save file; restriction oracle from the reference model",
             "text": "Default, --skip_brute, --all_lower and both are run as whole process images over the same ruleset (Markov structure first/middle/last/absent/alone); the restricted streams are compared with the reference restriction (rescaled probabilities, order, guesses), and a flagged session is quit at a drawn pop and resumed with --load and no flags in a new process image, judged by RefResume.",
